@@ -25,13 +25,15 @@ import Proofs.C15
 namespace TM
 open Pickle
 
-/-- The copy reacts to every history like the original: same observations up to the renaming
+/-- The copy reacts to every history like the original AT REST (`quiesce M`; `M` itself when the
+snapshot is taken between events — an event in progress while a callback takes the snapshot lives on
+the call stack, not in the machine): same observations up to the renaming
 (contexts entered in the same order, same transitions, same states, blocked by the corresponding
 locks, no KeyError the original would not raise). -/
 def Pickle.Preserves (k : Kind) : Prop :=
   ∀ (δ : Delta) (ρ : Nat → Nat), Inj ρ → ∀ M : PM, WF k M → ∀ (held : List Nat) (h : List Ev),
     (∀ e ∈ h, e.onModels M.models) →
-    (run k δ (held.map ρ) (roundtrip k ρ M) (h.map (renEv ρ))).2 = (run k δ held M h).2.map (renObs ρ)
+    (run k δ (held.map ρ) (roundtrip k ρ M) (h.map (renEv ρ))).2 = (run k δ held (quiesce M) h).2.map (renObs ρ)
 
 /-- Every id-keyed table the class uses is keyed by the new ids after the round trip. -/
 def Pickle.TablesRekeyed (k : Kind) : Prop :=
@@ -127,14 +129,14 @@ theorem C15_tables_full (k : Kind) (hk : k.predefined = true) : TablesRekeyed k 
 original react identically (up to the renaming of objects) to every history. -/
 theorem C15_full (k : Kind) (hk : k.predefined = true) : Preserves k := by
   intro δ ρ hρ M hwf held h hh
-  exact (sim_run δ hρ held h M _ (roundtrip_sim k hk ρ hρ M hwf) hh).1
+  exact (sim_run δ hρ held h (quiesce M) _ (roundtrip_sim k hk ρ hρ M hwf) hh).1
 
 /-- … and the relation is an invariant of the joint run, so the statement composes over further
 snapshots and continuations -/
 theorem C15_behaviour_invariant (k : Kind) (hk : k.predefined = true) (δ : Delta) (ρ : Nat → Nat) (hρ : Inj ρ)
     (M : PM) (hwf : WF k M) (held : List Nat) (h : List Ev) (hh : ∀ e ∈ h, e.onModels M.models) :
-    Sim k ρ (run k δ held M h).1 (run k δ (held.map ρ) (roundtrip k ρ M) (h.map (renEv ρ))).1 :=
-  (sim_run δ hρ held h M _ (roundtrip_sim k hk ρ hρ M hwf) hh).2
+    Sim k ρ (run k δ held (quiesce M) h).1 (run k δ (held.map ρ) (roundtrip k ρ M) (h.map (renEv ρ))).1 :=
+  (sim_run δ hρ held h (quiesce M) _ (roundtrip_sim k hk ρ hρ M hwf) hh).2
 
 /-- **held locks, copy side**: every context object of the copy is the image of one of the
 original's; so a set of held locks that contains no unpickled object (e.g. any locks of the original,
@@ -177,6 +179,41 @@ theorem C15_frame (k : Kind) (δ : Delta) (held : List Nat) (M : PM) (e : Ev) (h
       split
       · first | rfl | (simp only [alookup_regen, hx, if_false])
       · rfl
+
+/-! ### snapshots taken while an event is in progress (from a callback)
+
+`M.identHeld` says that the pickling thread is inside an event of the (locked) machine.  As repaired
+(cf88f30) `IdentManager.__getstate__` stores `current = 0`, the model's `getstate` resets the field,
+and `C15_full` — stated against the original at rest — covers such snapshots at full strength.
+(The other former mid-event finding, the scope stack of the hierarchical classes (b080617), is outside
+this model: `Model/Pickle.lean` has no state tree; it is judged by the harness only.) -/
+
+/-- **mid-event snapshots, full strength**: for every predefined class, whatever the pickling thread
+holds at that moment, the copy reacts like the original at rest -/
+theorem C15_midevent_full (k : Kind) (hk : k.predefined = true) (δ : Delta) (ρ : Nat → Nat) (hρ : Inj ρ)
+    (M : PM) (hwf : WF k M) (held : List Nat) (h : List Ev) (hh : ∀ e ∈ h, e.onModels M.models) :
+    (roundtrip k ρ M).identHeld = false ∧
+    (run k δ (held.map ρ) (roundtrip k ρ M) (h.map (renEv ρ))).2 =
+      (run k δ held (quiesce M) h).2.map (renObs ρ) :=
+  ⟨roundtrip_ident k ρ M, C15_full k hk δ ρ hρ M hwf held h hh⟩
+
+/-- … and for a snapshot taken between events that is the original itself -/
+theorem C15_at_rest (k : Kind) (hk : k.predefined = true) (δ : Delta) (ρ : Nat → Nat) (hρ : Inj ρ)
+    (M : PM) (hwf : WF k M) (hrest : M.identHeld = false) (held : List Nat) (h : List Ev)
+    (hh : ∀ e ∈ h, e.onModels M.models) :
+    (run k δ (held.map ρ) (roundtrip k ρ M) (h.map (renEv ρ))).2 = (run k δ held M h).2.map (renObs ρ) := by
+  have hq : quiesce M = M := by cases M; simp only [quiesce] at *; simp_all
+  have := C15_full k hk δ ρ hρ M hwf held h hh
+  rwa [hq] at this
+
+/-- regression (former finding F-C15-midevent-ident-pickled): a locked machine pickled from inside a
+callback; the copy enters its (new) lock again, the original at that instant enters nothing -/
+def exMid : PM := { models := [1], mstate := [(1, 0)], mctx := [10], ctx := [(1, [10])], identHeld := true }
+def exDelta0 : Delta := fun _ s ev => if s = 0 ∧ ev = 0 then some 1 else none
+example : (run { locked := true } exDelta0 [] exMid [.trigger 0 1 0]).2 = [.done [] true 1] := by decide
+example : (run { locked := true } exDelta0 [] (roundtrip { locked := true } (· + 100) exMid) [.trigger 0 101 0]).2 =
+    [.done [110] true 1] := by decide
+example : (roundtrip { locked := true } (· + 100) exMid).identHeld = false := by decide
 
 /-! ### regression: the witnesses of the two former findings -/
 
